@@ -296,7 +296,7 @@ def main(argv):
             cases, log = run_impl(binary, cases=[strip(c) for c in corpus])
             cases = cases or []
             ncorpus = len(cases)
-        gen, log = run_impl(binary, seed=vlib.seed(), n=n, buddy_every=6, large_every=8)
+        gen, log = run_impl(binary, seed=vlib.seed(), n=n, buddy_every=6, large_every=10)
         if gen is None:
             rep.obligation('harness run', False)
             rep.violation({'broken': 'harness run failed', 'log': log[-4000:]}, nofail=True)
@@ -325,7 +325,7 @@ def main(argv):
         'evaluations': len(cases),
         'distinct_nontrivial': len({vlib.case_hash(strip(c)) for c in cases if nontrivial(c)}),
         'rule': 'random API histories (20-80 calls; 1-3 processes incl. shared-PID contexts; CPU + 1-4 GPUs of 16-64 pages, one in four of 2-8 pages; '
-                'page sizes 2^12..2^16 and 2^21; request sizes around multiples of the page size and of 4 KiB (exact, +-1, half a page); every 8th history is a short history around large buffers (2 MiB - 1 page, 2 MiB, 2 MiB + 1, 4 MiB + delta, 64 MiB at page sizes >= 2^16) mixed with small allocations of two contexts, frees, re-allocations, remaps, distribution; unified devices; every 5th history hostile: double free, foreign/mid-buffer free, over-capacity, unmapped remap, bad device); '
+                'page sizes 2^12..2^16 and 2^21; request sizes around multiples of the page size and of 4 KiB (exact, +-1, half a page); every 10th history is a short history around large buffers (2 MiB - 1 page, 2 MiB, 2 MiB + 1, 4 MiB + delta, 64 MiB at page sizes >= 2^16) mixed with small allocations of two contexts, frees, re-allocations, remaps, distribution; unified devices; every 5th history hostile: double free, foreign/mid-buffer free, over-capacity, unmapped remap, bad device); '
                 'non-trivial = at least three allocations, a free, and a non-empty final page table',
         'traces_validated_against_impl': len(lst) + (len(bud) if bud and okb else 0),
         'corpus_cases': ncorpus,
